@@ -50,7 +50,7 @@ func resetSomeConn(w *W, prefix string) bool {
 }
 
 func c04Stream(w *W) {
-	tran := w.simFallback([]string{"sim", "simipc", "tcp", "inproc", "ipc", "tls+tcp"}[w.Choose(simrt.SShape, 6)])
+	tran := w.simFallback([]string{"sim", "simipc", "tcp", "inproc", "ipc", "tls+tcp", "ws", "wss"}[w.Choose(simrt.SShape, 8)])
 	R := []time.Duration{20 * time.Millisecond, 100 * time.Millisecond, time.Second}[w.Choose(simrt.SShape, 3)]
 	nrep := 1 + w.Choose(simrt.SShape, 3)
 	nreq := 1 + w.Choose(simrt.SShape, 5)
